@@ -16,6 +16,7 @@ and proved here under an explicit decidable exclusion (`…_partial`).
 -/
 import CaddyModel.C11.Lemmas
 import CaddyModel.C11.Witness
+import CaddyModel.C11.CaddyfileProps
 
 namespace CaddyModel.C11
 
